@@ -373,6 +373,10 @@ func TestC12L2(t *testing.T) {
 			case "plan":
 				// role rotation through an executor-change plan executed at the end of this block
 				newExecs := drawExecutors(rt, users, "pe")
+				if len(newExecs) > 0 && rapid.IntRange(0, 3).Draw(rt, "planRepeatsExecutor") == 0 {
+					newExecs = append(newExecs, newExecs[0]) // a list that names an account twice is a list like any other
+					c.Class("L2/plan-listing-an-executor-twice")
+				}
 				h := uint64(l2.Ctx.BlockHeight())
 				key := henv.MakeConsKey(fmt.Sprintf("c12-plan-%d", i))
 				bz, _ := l2.Enc.Marshaler.MarshalInterfaceJSON(key.PubKey())
@@ -392,6 +396,9 @@ func TestC12L2(t *testing.T) {
 				}
 				executors = newExecs
 				valStored = map[int]bool{}
+				if p, _ := l2.K.GetParams(l2.Ctx); fmt.Sprint(p.BridgeExecutors) != fmt.Sprint(executors) && !(len(p.BridgeExecutors) == 0 && len(executors) == 0) {
+					fail("the plan of this height names the executors %v; after the block the bridge executors are %v", executors, p.BridgeExecutors)
+				}
 				l2.NextBlock(time.Second)
 				log = append(log, fmt.Sprintf("executor-change plan -> executors %v", executors))
 				return
@@ -653,8 +660,21 @@ func TestC12L2(t *testing.T) {
 						})
 					}
 				}
+				paidBefore := l2.Balance(users[5].Addr, "stake")
 				r := l2.Deliver(msg)
 				log = append(log, fmt.Sprintf("execute%v by %s [admin=%v former=%v] -> %v", desc, short(signer), signer == admin, former, r.Err))
+				if r.OK() {
+					// all of it: every carried payment (fee-pool spend, transfer by the authority) has arrived
+					pays := 0
+					for _, d := range desc {
+						if d == "spend" || d == "send-by-authority" {
+							pays++
+						}
+					}
+					if got := l2.Balance(users[5].Addr, "stake").Sub(paidBefore); !got.Equal(math.NewInt(int64(pays))) {
+						fail("batched execution %v reported success; its %d payments of 1stake delivered %s: the batch is neither all nor nothing", desc, pays, got)
+					}
+				}
 				want := signer == admin && allAuthority && allValid
 				if r.OK() != want {
 					fail("batched execution %v by %s: ok=%v, statement says %v (admin=%v, all inner signed by authority=%v, all inner valid=%v): %v", desc, signer, r.OK(), want, signer == admin, allAuthority, allValid, r.Err)
